@@ -95,7 +95,9 @@ namespace nmtools::functional
                     )
                 );
                 #if 1
-                if constexpr (is_broadcast_view_v<operand_t>) {
+                // only a ufunc of two or more operands wraps its operands in broadcast_to;
+                // the operand of a unary ufunc is a broadcast_to only when the caller wrote one: keep it
+                if constexpr ((N > 1) && is_broadcast_view_v<operand_t>) {
                     // TODO: refactor ufuncs
                     // skip broadcasting
                     // NOTE: keep the operands pack alive, at() returns a reference into it
